@@ -276,9 +276,9 @@ func cmdString(c *t_aio.Command) string {
 	return c.Kind.String()
 }
 
-func newSqlite(path string, h *Hooks) (*sqlite.SqliteStore, *sql.DB) {
+func newSqlite(path string, h *core.Hooks) (*sqlite.SqliteStore, *sql.DB) {
 	m := metrics.New(prometheus.NewRegistry())
-	db := OpenHooked(path, h)
+	db := core.OpenHooked(path, h)
 	st, err := sqlite.NewVerif(db, m, &sqlite.Config{Size: 1, BatchSize: 100, Path: path, TxTimeout: 10 * time.Second})
 	if err != nil {
 		panic(err)
@@ -334,9 +334,9 @@ func TestC16(t *testing.T) {
 		}
 		path := filepath.Join(dir, fmt.Sprintf("a%d.db", n))
 		path2 := filepath.Join(dir, fmt.Sprintf("b%d.db", n))
-		h := &Hooks{FailAt: -1}
+		h := &core.Hooks{FailAt: -1}
 		st, db := newSqlite(path, h)
-		st2, db2 := newSqlite(path2, &Hooks{FailAt: -1})
+		st2, db2 := newSqlite(path2, &core.Hooks{FailAt: -1})
 		obs, _ := sql.Open("sqlite3", path)
 		obs2, _ := sql.Open("sqlite3", path2)
 		defer func() {
